@@ -154,14 +154,17 @@ theorem mustQuote_subset : ∀ w ∈ Spec.SqlExport.mustQuote, w ∈ reservedWor
   have := List.all_eq_true.mp mustQuote_all w hw
   simpa using this
 
-theorem next_quoteIdent (n rest : Bytes) (hn : n ≠ []) (hb : IdentBoundary rest) :
-    ∃ tok, next (quoteIdent n ++ rest) = some (some tok, rest) ∧ Spec.SqlExport.isName n tok = true := by
-  unfold quoteIdent
+/-- the token `quoteIdent n` is read as -/
+def identTok (n : Bytes) : Tok := if (!isPlainIdent n || isReservedWord n) = true then .qident n else .word n
+
+theorem next_quoteIdent' (n rest : Bytes) (hn : n ≠ []) (hb : IdentBoundary rest) :
+    next (quoteIdent n ++ rest) = some (some (identTok n), rest) ∧ Spec.SqlExport.isName n (identTok n) = true := by
+  unfold quoteIdent identTok
   by_cases hq : (!isPlainIdent n || isReservedWord n) = true
-  · rw [if_pos hq]
-    refine ⟨.qident n, next_quotedIdent n rest hn ?_, by simp [Spec.SqlExport.isName]⟩
+  · rw [if_pos hq, if_pos hq]
+    refine ⟨next_quotedIdent n rest hn ?_, by simp [Spec.SqlExport.isName]⟩
     intro h; exact (hb 34 h).2.2.2 rfl
-  · rw [if_neg hq]
+  · rw [if_neg hq, if_neg hq]
     simp only [Bool.or_eq_true, Bool.not_eq_true', not_or, Bool.not_eq_false, Bool.not_eq_true] at hq
     obtain ⟨hp, hres⟩ := hq
     cases n with
@@ -183,7 +186,7 @@ theorem next_quoteIdent (n rest : Bytes) (hn : n ≠ []) (hb : IdentBoundary res
         cases hd with
         | head => exact ((plain_facts c).2 (by simp [isPlainCont, hc])).2.2
         | tail _ h => exact ((plain_facts d).2 (ht d h)).2.2
-      refine ⟨.word (c :: t), ?_, ?_⟩
+      refine ⟨?_, ?_⟩
       · have := next_word c t rest ((plain_facts c).1 hc).1 (fun d hd => ((plain_facts d).2 (ht d hd)).1)
           (fun d hd => ⟨(hb d hd).1, (hb d hd).2.1, (hb d hd).2.2.1⟩)
         rw [hfold] at this
@@ -193,6 +196,10 @@ theorem next_quoteIdent (n rest : Bytes) (hn : n ≠ []) (hb : IdentBoundary res
         intro hm
         have := mustQuote_subset _ hm
         simp [isReservedWord, hlow, this] at hres
+
+theorem next_quoteIdent (n rest : Bytes) (hn : n ≠ []) (hb : IdentBoundary rest) :
+    ∃ tok, next (quoteIdent n ++ rest) = some (some tok, rest) ∧ Spec.SqlExport.isName n tok = true :=
+  ⟨identTok n, next_quoteIdent' n rest hn hb⟩
 
 /-! ### comments -/
 
